@@ -15,9 +15,11 @@ import (
 	"verifharness/c09"
 	"verifharness/c10"
 	"verifharness/c12"
+	"verifharness/c13"
 	"verifharness/c15"
 	"verifharness/c16"
 	"verifharness/c18"
+	"verifharness/c19"
 	"verifharness/c20"
 	"verifharness/e2e"
 	"verifharness/hx"
@@ -40,6 +42,7 @@ var gens = map[string][]genFunc{
 	"C20": {c20.Gen},
 	"C15": {c15.Gen},
 	"C06": {c06.Gen},
+	"C19": {c19.Gen},
 	"C10": {c10.Gen},
 	"C18": {c18.Gen},
 	"C16": {c16.Gen},
@@ -52,6 +55,7 @@ var gens = map[string][]genFunc{
 var customImpl = map[string]func(){
 	"C15": c15.Impl,
 	"C06": c06.Impl,
+	"C19": c19.Impl,
 	"C10": c10.Impl,
 	"C18": c18.Impl,
 	"C16": c16.Impl,
@@ -79,6 +83,10 @@ func main() {
 		os.Exit(2)
 	}
 	prop, cmd := os.Args[1], os.Args[2]
+	if prop == "C13" { // scenario drivers (normally run from the vh13 binary); they own their argument parsing
+		c13.Main(os.Args[2:])
+		return
+	}
 	switch cmd {
 	case "gen":
 		gs := gens[prop]
